@@ -105,6 +105,14 @@ template <class E, class Enable = void> struct evinfo {
     static int serial(const E&) { return -1; }
     static int pay(const E&) { return 0; }
 };
+template <class T> struct vf_void { typedef void type; };
+// back / back11 wrap the event in direct_entry_event<> for explicit entry, fork and entry points
+template <class E> struct evinfo<E, typename vf_void<typename E::contained_event>::type> {
+    typedef typename E::contained_event I;
+    static int eid(const E& e) { return 2000 + evinfo<I>::eid(e.m_event); }
+    static int serial(const E& e) { return evinfo<I>::serial(e.m_event); }
+    static int pay(const E& e) { return evinfo<I>::pay(e.m_event); }
+};
 template <class E> struct evinfo<E, typename std::enable_if<std::is_base_of<EvBase, E>::value>::type> {
     static int eid(const E&) { return E::eid; }
     static int serial(const E& e) { return e.serial; }
